@@ -191,18 +191,87 @@ func ruleLpmImaginary(c *Ctx, r *Reporter) {
 		r.check(good, c.fnName(fn)+"|imaginary nodes are not yielded", c.posStr(fn.Pos()), "node.value is only read where node.imaginary is false", "the iterator yields (zero) values of imaginary fork nodes")
 	}
 	if fn := c.Func("lpm", "", "lpmLookup"); fn != nil {
-		good := false
+		// longest-prefix match: a value is reported only from a node that holds one, and "not found"
+		// only when no covering prefix was seen on the way down (a fork node where the key ends must
+		// fall back to the closest covering prefix)
+		notImaginaryAt := func(node ssa.Value, b *ssa.BasicBlock) bool {
+			for _, f := range factsAt(b) {
+				cond, val := stripNot(f.Cond, f.Val)
+				if x, ok := loadOfField(cond, "lpmNode", "imaginary"); ok && !val && x == node {
+					return true
+				}
+			}
+			return false
+		}
+		bad := ""
+		var badPos ssa.Instruction
+		n := 0
 		for _, ret := range returnsOf(fn) {
-			if len(ret.Results) == 2 {
-				if _, ok := loadOfField(ret.Results[0], "lpmNode", "value"); ok {
-					v, _ := stripNot(ret.Results[1], true)
-					if _, ok := loadOfField(v, "lpmNode", "imaginary"); ok && v != ret.Results[1] {
-						good = true
+			if len(ret.Results) != 2 {
+				continue
+			}
+			n++
+			okc, isConst := ret.Results[1].(*ssa.Const)
+			switch {
+			case !isConst:
+				bad, badPos = "the result of a lookup that ends exactly on a node is decided by that node's imaginary flag alone: on a fork node it reports 'not found' although a shorter stored prefix covers the key", ret
+			case okc.Value != nil && okc.Value.String() == "true":
+				node, ok := loadOfField(ret.Results[0], "lpmNode", "value")
+				if !ok {
+					bad, badPos = "a value is returned that is not a node's value", ret
+					break
+				}
+				good := notImaginaryAt(node, ret.Block())
+				if phi, isPhi := node.(*ssa.Phi); isPhi && !good {
+					// "closest": every node that can flow into it does so under !imaginary
+					good = true
+					seen := map[*ssa.Phi]bool{}
+					var walk func(p *ssa.Phi)
+					walk = func(p *ssa.Phi) {
+						if seen[p] {
+							return
+						}
+						seen[p] = true
+						for i, e := range p.Edges {
+							if isNilConst(e) {
+								continue
+							}
+							if notImaginaryAt(e, p.Block().Preds[i]) {
+								continue
+							}
+							if ep, ok := e.(*ssa.Phi); ok {
+								walk(ep)
+								continue
+							}
+							good = false
+						}
 					}
+					walk(phi)
+				}
+				if !good {
+					bad, badPos = "the value of a node is returned as found without knowing that the node is not imaginary", ret
+				}
+			default: // constant false
+				covered := false
+				for _, f := range factsAt(ret.Block()) {
+					if bo, ok := f.Cond.(*ssa.BinOp); ok && isNilConst(bo.Y) {
+						if _, isPhi := bo.X.(*ssa.Phi); isPhi && ((bo.Op == token.EQL && f.Val) || (bo.Op == token.NEQ && !f.Val)) {
+							covered = true
+						}
+					}
+				}
+				if !covered {
+					bad, badPos = "'not found' is returned without checking the closest covering prefix remembered on the way down", ret
 				}
 			}
 		}
-		r.check(good, "lpm.lpmLookup|full-length match reports !imaginary", c.posStr(fn.Pos()), "return node.value, !node.imaginary", "a lookup that ends on a fork node reports its (zero) value as found")
+		if n == 0 {
+			r.undecided("lpm.lpmLookup|longest match falls back to the covering prefix", c.posStr(fn.Pos()), "no two-result return found")
+		} else if bad == "" {
+			r.ok("lpm.lpmLookup|longest match falls back to the covering prefix", c.posStr(fn.Pos()), "values are reported only from non-imaginary nodes and 'not found' only when no covering prefix was seen")
+		} else {
+			r.bad("lpm.lpmLookup|longest match falls back to the covering prefix", c.posStr(instrPos(badPos)), bad)
+		}
 	}
 }
 
@@ -558,5 +627,488 @@ func ruleEncFresh(c *Ctx, r *Reporter) {
 	}
 	if n < 3 {
 		r.undecided("encoders", "-", fmt.Sprintf("expected at least 3 key encoders, found %d", n))
+	}
+}
+
+func init() {
+	register(&Rule{
+		ID: "OPTIONAL-NIL", Props: []string{"C14", "C15"}, Floor: 2,
+		Doc: "a pointer-typed reconciler option that a caller can set to nil (stored from a parameter of an exported With... function) and that config.validate does not reject is dereferenced only under a non-nil test: an optional limiter that is not set must mean 'no throttling', not a crash of the reconcile loop",
+		Run: ruleOptionalNil,
+	})
+}
+
+func ruleOptionalNil(c *Ctx, r *Reporter) {
+	// 1. settable pointer fields of reconciler.options
+	settable := map[string]bool{}
+	for _, fn := range c.Funcs {
+		if fn.Package() == nil || shortPkg(fn.Package().Pkg.Path()) != "reconciler" {
+			continue
+		}
+		// closure inside an exported function
+		top := fn
+		for top.Parent() != nil {
+			top = top.Parent()
+		}
+		if top.Object() == nil || !top.Object().Exported() {
+			continue
+		}
+		for _, ia := range allInstrs(fn) {
+			st, ok := ia.In.(*ssa.Store)
+			if !ok {
+				continue
+			}
+			fa, ok := st.Addr.(*ssa.FieldAddr)
+			if !ok {
+				continue
+			}
+			tn, f, _ := fieldOf(fa)
+			if tn != "options" {
+				continue
+			}
+			if _, isPtr := st.Val.Type().Underlying().(*types.Pointer); !isPtr {
+				continue
+			}
+			v := st.Val
+			if l, ok := isLoad(v); ok {
+				v = l
+			}
+			switch v.(type) {
+			case *ssa.FreeVar, *ssa.Parameter:
+				settable[f] = true
+			}
+		}
+	}
+	// 2. rejected by validate
+	rejected := map[string]bool{}
+	if vf := c.fnByName("reconciler.(config).validate"); vf != nil {
+		for _, ia := range allInstrs(vf) {
+			bo, ok := ia.In.(*ssa.BinOp)
+			if !ok || (bo.Op != token.EQL && bo.Op != token.NEQ) || !isNilConst(bo.Y) {
+				continue
+			}
+			if f := optionFieldOf(bo.X); f != "" {
+				rejected[f] = true
+			}
+		}
+	}
+	// 3. uses
+	n := 0
+	for _, fn := range c.Funcs {
+		if fn.Package() == nil || shortPkg(fn.Package().Pkg.Path()) != "reconciler" {
+			continue
+		}
+		ord := map[string]int{}
+		for _, ia := range allInstrs(fn) {
+			call, ok := ia.In.(ssa.CallInstruction)
+			if !ok || call.Common().IsInvoke() || len(call.Common().Args) == 0 {
+				continue
+			}
+			if call.Common().Signature().Recv() == nil {
+				continue
+			}
+			f := optionFieldOf(call.Common().Args[0])
+			if f == "" || !settable[f] || rejected[f] {
+				continue
+			}
+			n++
+			ord[f]++
+			guarded := false
+			for _, fct := range factsAt(ia.In.Block()) {
+				bo, ok := fct.Cond.(*ssa.BinOp)
+				if !ok || !isNilConst(bo.Y) || optionFieldOf(bo.X) != f {
+					continue
+				}
+				if (bo.Op == token.NEQ && fct.Val) || (bo.Op == token.EQL && !fct.Val) {
+					guarded = true
+				}
+			}
+			key := fmt.Sprintf("%s|options.%s used#%d under a nil test", c.fnName(fn), f, ord[f])
+			r.check(guarded, key, c.posStr(instrPos(ia.In)), "the optional "+f+" is dereferenced only where it is known to be non-nil", "options."+f+" can be nil (set from the caller's argument, not rejected by validate) but "+c.calleeName(call)+" is called on it unconditionally: a reconciler configured without it crashes on its first round and nothing is ever reconciled")
+		}
+	}
+	if n < 2 {
+		r.undecided("uses", "-", fmt.Sprintf("expected at least 2 uses of optional pointer options, found %d", n))
+	}
+}
+
+// optionFieldOf: v is a load of <...>.options.<f> (through any chain of field addresses).
+func optionFieldOf(v ssa.Value) string {
+	addr, ok := isLoad(v)
+	if !ok {
+		if fl, ok := v.(*ssa.Field); ok {
+			if tn, f, _ := fieldOf(fl); tn == "options" {
+				return f
+			}
+		}
+		return ""
+	}
+	fa, ok := addr.(*ssa.FieldAddr)
+	if !ok {
+		return ""
+	}
+	if tn, f, _ := fieldOf(fa); tn == "options" {
+		return f
+	}
+	return ""
+}
+
+func init() {
+	register(&Rule{
+		ID: "LEN-NARROW", Props: []string{"C11", "C13", "C17", "C18", "C03", "C04"}, Floor: 0,
+		Doc: "no length of a key (len(x), possibly through min/arithmetic) is converted to an integer type of 16 bits or fewer without a bound check on that length: a key of 65536 bytes or more would be stored with a length taken modulo 65536 (lookups miss it, iteration returns truncated keys, the two parts of a composite key cannot be separated)",
+		Run: ruleLenNarrow,
+	})
+}
+
+func ruleLenNarrow(c *Ctx, r *Reporter) {
+	isLenDerived := func(v ssa.Value) bool {
+		var walk func(v ssa.Value, d int) bool
+		walk = func(v ssa.Value, d int) bool {
+			if d > 4 {
+				return false
+			}
+			switch x := v.(type) {
+			case *ssa.Call:
+				if b, ok := x.Call.Value.(*ssa.Builtin); ok {
+					switch b.Name() {
+					case "len":
+						// the length of a byte string (key, prefix), not of a slot list
+						switch t := x.Call.Args[0].Type().Underlying().(type) {
+						case *types.Slice:
+							if bt, ok := t.Elem().Underlying().(*types.Basic); ok && bt.Kind() == types.Uint8 {
+								return true
+							}
+						case *types.Basic:
+							return t.Info()&types.IsString != 0
+						}
+						return false
+					case "min", "max":
+						for _, a := range x.Call.Args {
+							if walk(a, d+1) {
+								return true
+							}
+						}
+					}
+				}
+			case *ssa.BinOp:
+				return walk(x.X, d+1) || walk(x.Y, d+1)
+			case *ssa.Convert:
+				return walk(x.X, d+1)
+			case *ssa.Phi:
+				for _, e := range x.Edges {
+					if walk(e, d+1) {
+						return true
+					}
+				}
+			case *ssa.Extract:
+				// the number of bytes appendEncode appended (ENC-AGREE: its counter equals them)
+				if call, ok := x.Tuple.(*ssa.Call); ok && x.Index == 0 {
+					if f := staticCallee(call); f != nil && f.Name() == "appendEncode" {
+						return true
+					}
+				}
+			}
+			return false
+		}
+		return walk(v, 0)
+	}
+	n := 0
+	for _, fn := range c.Funcs {
+		if fn.Package() == nil {
+			continue
+		}
+		pk := shortPkg(fn.Package().Pkg.Path())
+		var props []string
+		switch pk {
+		case "part":
+			props = []string{"C11", "C17", "C03", "C04"}
+		case "lpm":
+			props = []string{"C13"}
+		case "statedb", "index":
+			props = []string{"C18", "C04"}
+		default:
+			continue
+		}
+		ord := 0
+		for _, ia := range allInstrs(fn) {
+			cv, ok := ia.In.(*ssa.Convert)
+			if !ok {
+				continue
+			}
+			bt, ok := cv.Type().Underlying().(*types.Basic)
+			if !ok {
+				continue
+			}
+			switch bt.Kind() {
+			case types.Uint16, types.Int16, types.Uint8, types.Int8:
+			default:
+				continue
+			}
+			if st, ok := cv.X.Type().Underlying().(*types.Basic); !ok || st.Info()&types.IsInteger == 0 {
+				continue
+			}
+			if !isLenDerived(cv.X) {
+				continue
+			}
+			// a bound on the same length established before
+			bounded := false
+			for _, f := range factsAt(cv.Block()) {
+				if bo, ok := f.Cond.(*ssa.BinOp); ok {
+					switch bo.Op {
+					case token.LSS, token.LEQ, token.GTR, token.GEQ:
+						if (isLenDerived(bo.X) && isConstInt(bo.Y)) || (isLenDerived(bo.Y) && isConstInt(bo.X)) {
+							bounded = true
+						}
+					}
+				}
+			}
+			n++
+			ord++
+			key := fmt.Sprintf("%s|length narrowed to %s#%d", c.fnName(fn), bt.Name(), ord)
+			r.checkP(props, bounded, key, c.posStr(instrPos(cv)), "the length is known to fit", "a key length is converted to "+bt.Name()+" without a bound check: for keys of "+map[bool]string{true: "256", false: "65536"}[bt.Kind() == types.Uint8 || bt.Kind() == types.Int8]+" bytes or more the stored length wraps around")
+		}
+	}
+	r.note("%d narrowing conversions of lengths found", n)
+}
+
+func isConstInt(v ssa.Value) bool {
+	_, ok := constInt(v)
+	return ok
+}
+
+func init() {
+	register(&Rule{
+		ID: "CHANGES-INIT", Props: []string{"C07", "C08"}, Floor: 2,
+		Doc: "Table.Changes registers its delete tracker under a name that stays unique while it is registered: the name is made from the tracker object itself (kept alive by the table until unregistered) or from a counter - not from the iterator, whose memory can be reused before the cleanup of a dropped iterator has unregistered the old name; the tracker's watermark is set before it is registered; a failed registration returns no iterator",
+		Run: ruleChangesInit,
+	})
+}
+
+func ruleChangesInit(c *Ctx, r *Reporter) {
+	fn := c.Func("statedb", "genTable", "Changes")
+	if fn == nil {
+		r.anchorMissing("statedb.(genTable).Changes")
+		return
+	}
+	adds := c.callsNamed(fn, "statedb.(writeTxnState).addDeleteTracker")
+	if len(adds) != 1 {
+		r.undecided("statedb.(genTable).Changes|registration", c.posStr(fn.Pos()), fmt.Sprintf("expected one addDeleteTracker call, found %d", len(adds)))
+		return
+	}
+	add := adds[0].(*ssa.Call)
+	args := callArgs(add)
+	// (1) the name
+	name := args[len(args)-2]
+	good, why := false, "the tracker name is not built by fmt.Sprintf from a recognisable identity"
+	if sp, ok := name.(*ssa.Call); ok && c.calleeName(sp) == "fmt.Sprintf" {
+		for _, ia := range allInstrs(fn) {
+			mi, ok := ia.In.(*ssa.MakeInterface)
+			if !ok || !instrDominates(mi, sp) {
+				continue
+			}
+			// is it stored into the varargs array of this Sprintf?
+			used := false
+			for _, ref := range *mi.Referrers() {
+				if st, ok := ref.(*ssa.Store); ok {
+					if ix, ok := st.Addr.(*ssa.IndexAddr); ok {
+						if sl, ok := sp.Call.Args[1].(*ssa.Slice); ok && sl.X == ix.X {
+							used = true
+						}
+					}
+				}
+			}
+			if !used {
+				continue
+			}
+			v := mi.X
+			switch {
+			case namedTypeName(v.Type()) == "deleteTracker":
+				good = true
+			case namedTypeName(v.Type()) == "changeIterator":
+				why = "the tracker is registered under a name made from the iterator's address: a dropped iterator is unregistered by a runtime cleanup that runs after its memory was freed (and waits for the table lock), a new iterator allocated at that address registers under the same name, and the late cleanup then removes the live iterator's tracker - its unobserved deletions are collected"
+			default:
+				if call, ok := v.(*ssa.Call); ok && strings.Contains(c.calleeName(call), "atomic") {
+					good = true
+				}
+				if cv, ok := v.(*ssa.Convert); ok {
+					if call, ok := cv.X.(*ssa.Call); ok && strings.Contains(c.calleeName(call), "atomic") {
+						good = true
+					}
+				}
+			}
+		}
+	}
+	r.check(good, "statedb.(genTable).Changes|tracker name unique while registered", c.posStr(instrPos(add)), "the name is derived from the tracker object (or a counter)", why)
+	// (2) watermark set before registration
+	set := false
+	for _, call := range c.callsNamed(fn, "statedb.(deleteTracker).setRevision") {
+		if instrDominates(call, add) {
+			set = true
+		}
+	}
+	r.check(set, "statedb.(genTable).Changes|watermark set before registration", c.posStr(instrPos(add)), "setRevision dominates addDeleteTracker", "the tracker is registered before its watermark is set: the collector may read revision 0/garbage for it")
+	// (3) failed registration returns no iterator
+	okErr := false
+	for _, f := range []bool{true} {
+		_ = f
+		for _, ret := range returnsOf(fn) {
+			if len(ret.Results) == 2 && ret.Results[1] == ssa.Value(add) && isNilConst(ret.Results[0]) {
+				okErr = true
+			}
+		}
+	}
+	r.check(okErr, "statedb.(genTable).Changes|failed registration returns no iterator", c.posStr(instrPos(add)), "return nil, err", "an iterator is returned although its tracker could not be registered: it silently misses deletions")
+}
+
+func init() {
+	register(&Rule{
+		ID: "WATCH-FREEZE", Props: []string{"C06", "C12"}, Floor: 2,
+		Doc: "a part.Txn method that hands out a watch channel found by walking the transaction's working tree freezes the tree first (txnID++), as the methods that hand out iterators do: otherwise the channel may belong to a node the transaction already owns, a later write in the same transaction changes that node in place without marking the channel, and the channel stays open after Commit although the watched key changed",
+		Run: ruleWatchFreeze,
+	})
+	register(&Rule{
+		ID: "START-TRIGGER", Props: []string{"C08"}, Floor: 1,
+		Doc: "DB.Start requests one collection when it creates the trigger channel: mark()/close() requests made before Start (the database may be used before it is started) had no channel to go to",
+		Run: ruleStartTrigger,
+	})
+	register(&Rule{
+		ID: "CLOSE-ONCE", Props: []string{"C12", "C11"}, Floor: 1,
+		Doc: "part.Txn.Notify closes channels that belong to the tree the transaction was made from; a second transaction made from the same Tree value (a fork: t0.Insert twice) closes the same channels again, so the close must not panic when the channel is already closed",
+		Run: ruleCloseOnce,
+	})
+}
+
+func ruleWatchFreeze(c *Ctx, r *Reporter) {
+	n := 0
+	for _, fn := range c.Funcs {
+		if fn.Parent() != nil || recvTypeName(fn) != "Txn" || fn.Package() == nil || shortPkg(fn.Package().Pkg.Path()) != "part" {
+			continue
+		}
+		if fn.Object() == nil || !fn.Object().Exported() {
+			continue
+		}
+		// returns a receive-only channel?
+		res := fn.Signature.Results()
+		chanRes := -1
+		for i := 0; i < res.Len(); i++ {
+			if isRecvChan(res.At(i).Type()) {
+				chanRes = i
+			}
+		}
+		if chanRes < 0 {
+			continue
+		}
+		// only methods that read the working tree without modifying it (queries)
+		reads := false
+		var rootRead ssa.Instruction
+		for _, ia := range allInstrs(fn) {
+			if u, ok := ia.In.(*ssa.UnOp); ok {
+				if _, ok := loadOfField(u, "Txn", "root"); ok {
+					reads = true
+					rootRead = u
+				}
+			}
+		}
+		writes := false
+		for _, ia := range allInstrs(fn) {
+			if st, ok := ia.In.(*ssa.Store); ok && isFieldAddrOf(st.Addr, "Txn", "root") {
+				writes = true
+			}
+		}
+		if !reads || writes {
+			continue
+		}
+		n++
+		frozen := false
+		for _, inc := range txnIDIncrements(fn) {
+			if instrDominates(inc, rootRead) {
+				frozen = true
+			}
+		}
+		r.check(frozen, c.fnName(fn)+"|freezes before handing out a node's channel", c.posStr(fn.Pos()), "txn.txnID++ precedes the walk", "the method returns the watch channel of a node of the working tree without freezing it: if the transaction owns that node (it was created or cloned by an earlier write of this transaction), a later write of the watched key in the same transaction changes the node in place and the channel is never closed (GetWatch on a write transaction, then Insert of that key, then Commit)")
+	}
+	if n < 2 {
+		r.undecided("methods", "-", fmt.Sprintf("expected at least 2 channel-returning query methods of part.Txn, found %d", n))
+	}
+}
+
+func ruleStartTrigger(c *Ctx, r *Reporter) {
+	fn := c.Func("statedb", "DB", "Start")
+	if fn == nil {
+		r.anchorMissing("statedb.(DB).Start")
+		return
+	}
+	var mk *ssa.Store
+	for _, ia := range allInstrs(fn) {
+		if st, ok := ia.In.(*ssa.Store); ok && isFieldAddrOf(st.Addr, "dbState", "gcTrigger") {
+			mk = st
+		}
+	}
+	if mk == nil {
+		r.undecided("statedb.(DB).Start|requests an initial collection", c.posStr(fn.Pos()), "Start does not create the trigger channel")
+		return
+	}
+	sent := false
+	for _, ia := range allInstrs(fn) {
+		switch x := ia.In.(type) {
+		case *ssa.Send:
+			if _, ok := loadOfField(x.Chan, "dbState", "gcTrigger"); ok && instrDominates(mk, x) {
+				sent = true
+			}
+		case *ssa.Select:
+			for _, st := range x.States {
+				if _, ok := loadOfField(st.Chan, "dbState", "gcTrigger"); ok && st.Dir == types.SendOnly && instrDominates(mk, x) {
+					sent = true
+				}
+			}
+		}
+	}
+	r.check(sent, "statedb.(DB).Start|requests an initial collection", c.posStr(instrPos(mk)), "a trigger is put into the new channel", "Start creates the trigger channel but requests no collection: deletions that every iterator had observed before Start() (mark/close found no channel) stay in the graveyard until some later mark or close")
+}
+
+func ruleCloseOnce(c *Ctx, r *Reporter) {
+	fn := c.Func("part", "Txn", "Notify")
+	if fn == nil {
+		r.anchorMissing("part.(Txn).Notify")
+		return
+	}
+	raw := 0
+	var pos ssa.Instruction
+	for _, f := range withAnon(fn) {
+		for _, ia := range allInstrs(f) {
+			call, ok := ia.In.(*ssa.Call)
+			if !ok {
+				continue
+			}
+			if b, ok := call.Call.Value.(*ssa.Builtin); ok && b.Name() == "close" {
+				// guarded by a non-blocking receive on the same channel?
+				guarded := false
+				for _, fct := range factsAt(call.Block()) {
+					if ex, ok := fct.Cond.(*ssa.Extract); ok {
+						if _, isSel := ex.Tuple.(*ssa.Select); isSel {
+							guarded = true
+						}
+					}
+					if bo, ok := fct.Cond.(*ssa.BinOp); ok {
+						if ex, ok := bo.X.(*ssa.Extract); ok {
+							if _, isSel := ex.Tuple.(*ssa.Select); isSel {
+								guarded = true
+							}
+						}
+					}
+				}
+				if !guarded {
+					raw++
+					pos = call
+				}
+			}
+		}
+	}
+	key := "part.(Txn).Notify|closing is idempotent"
+	if raw == 0 {
+		r.ok(key, c.posStr(fn.Pos()), "no unguarded close of a channel shared with sibling transactions")
+	} else {
+		r.bad(key, c.posStr(instrPos(pos)), fmt.Sprintf("Notify closes %d channel(s) of the previous tree unconditionally: a second transaction made from the same Tree value (t1 := t0.Insert(a,1); t2 := t0.Insert(a,2) - Tree values are persistent and may be forked) closes them again and panics with 'close of closed channel'", raw))
 	}
 }
